@@ -42,8 +42,8 @@ func genSchnorr(thorough bool, emit func(Case)) {
 				if ai != 0 {
 					continue
 				}
-				// every single-bit flip (quick: three keys, the hash message)
-				if thorough || (mi == 6 && (di == 0 || di == 3 || di == 4)) {
+				// every single-bit flip (quick: two keys, the hash message)
+				if thorough || (mi == 6 && (di == 0 || di == 4)) {
 					for i := 0; i < 256; i++ {
 						emit(schnorrCase("schnorr/bitflip-key", fmt.Sprintf("%s key bit %d", tag, i), flip(pk, i), sig, m))
 					}
@@ -245,7 +245,7 @@ func genP2C(thorough bool, emit func(Case)) {
 			}
 			emit(p2cCase(fam, tag+" right parity", qb, pb, b32(t), par))
 			emit(p2cCase(fam, tag+" wrong parity", qb, pb, b32(t), !par))
-			if tn == "hash" && (thorough || di == 0 || di == 4) || thorough && tn == "n-1" {
+			if tn == "hash" && (thorough || di == 4) || thorough && tn == "n-1" {
 				for i := 0; i < 256; i++ {
 					emit(p2cCase("p2c/bitflip-q", fmt.Sprintf("%s output key bit %d", tag, i), flip(qb, i), pb, b32(t), par))
 					emit(p2cCase("p2c/bitflip-p", fmt.Sprintf("%s internal key bit %d", tag, i), qb, flip(pb, i), b32(t), par))
